@@ -103,6 +103,7 @@ def run(ctx):
     lib.obligation_gate(rep, ctx, "C12", found)
     rep.cov["evaluations"] = evals
     rep.cov["distinct_nontrivial"] = len(nontrivial)
+    rep.cov["same_line_leg"] = "a file with several statements of one code on one line and its gofmt output (one per line): the same 10 statements reported"
     rep.cov["rule"] = ("%d IRs x %d renderings (%s): declaration order permuted, declarations moved between the non-test files of their package (imports unioned), blank lines / ordinary and "
                        "keyword-mentioning comments inserted, gofmt, locals and receivers renamed consistently, and all of it composed (+gofmt). Diagnostics of the real binary mapped to site ids "
                        "through the markers; compared with the base rendering by (site, code), TONL01/PKGO01 by (using package, type); each rendering also compared with the model. "
